@@ -251,6 +251,7 @@ def run_I2(chk, rule="I2"):
     was consumed), and hfs is given explicitly."""
     prog = chk.prog
     chk.rule(rule, "results that reset the lazy permutation carry struct/hfs permuted through `trans`", floor=14)
+    run_I2r(chk, rule)
     readers = trans_readers(prog)
     for f in functions(prog):
         calls = []
@@ -372,6 +373,83 @@ def run_I2(chk, rule="I2"):
                     chk.bad(rule, (f, c), f"{A.short(c, 70)}: {fld}", f"{f.short}(): the result resets the pending permutation (trans={A.text(tr)}) "
                             f"but its `{fld}` (`{A.short(v, 50)}`) does not depend on `{recv}.trans`: for a lazily transposed operand the "
                             f"native order of the result does not match its legs", dict(facts, field=fld))
+
+
+def run_I2r(chk, rule="I2"):
+    """the converse of I2: a result whose per-leg sequences (signature, fusion records) were *already reordered through* the pending
+    permutation must reset it -- inheriting `trans` applies the permutation a second time."""
+    prog = chk.prog
+    n_pos = 0
+    for f in functions(prog):
+        fn = f.node
+        if "_replace" not in A.text(fn) or "trans" not in A.text(fn):
+            continue
+        b = A.local_bindings(fn)
+        parent = A.enclosing_map(fn)
+
+        def reads_trans(node):
+            return any(isinstance(n, ast.Attribute) and n.attr == "trans" for n in ast.walk(node))
+
+        def reversing(node):
+            return any(isinstance(n, ast.Subscript) and isinstance(n.slice, ast.Slice) and n.slice.step is not None and A.neg_const(n.slice.step) == -1
+                       and n.slice.lower is None and n.slice.upper is None for n in ast.walk(node))
+
+        def permuting(node):
+            for n in ast.walk(node):
+                if isinstance(n, (ast.GeneratorExp, ast.ListComp)) and len(n.generators) == 1 and reads_trans(n.generators[0].iter) \
+                        and isinstance(n.generators[0].target, ast.Name):
+                    v_ = n.generators[0].target.id
+                    if any(isinstance(x, ast.Subscript) and isinstance(x.slice, ast.Name) and x.slice.id == v_
+                           and any(A.text(x.value).endswith(sf) for sf in (".hfs", ".struct.s", "struct.s")) for x in ast.walk(n.elt)):
+                        return True
+            return False
+        reordered = {}
+        changed = True
+        while changed:
+            changed = False
+            for name, defs in b.items():
+                if name in reordered:
+                    continue
+                for st, val, kind in defs:
+                    if val is None or kind not in ("assign", "unpack"):
+                        continue
+                    hit = None
+                    if permuting(val):
+                        hit = st
+                    elif reversing(val):
+                        if any(isinstance(x, ast.IfExp) and reads_trans(x.test) and (reversing(x.body) or reversing(x.orelse)) for x in ast.walk(val)):
+                            hit = st
+                        cur = st
+                        while cur in parent:
+                            cur = parent[cur]
+                            if isinstance(cur, ast.If) and reads_trans(cur.test):
+                                hit = st
+                                break
+                    elif any(isinstance(x, ast.Name) and isinstance(x.ctx, ast.Load) and x.id in reordered for x in ast.walk(val)) \
+                            and isinstance(val, ast.Call) and isinstance(val.func, ast.Attribute) and val.func.attr == "_replace":
+                        hit = st
+                    if hit is not None:
+                        reordered[name] = hit
+                        changed = True
+                        break
+        if not reordered:
+            continue
+        for c in _replace_calls(fn):
+            kws = {k.arg: k.value for k in c.keywords}
+            used = [fld for fld in ("struct", "hfs") if fld in kws and any(isinstance(x, ast.Name) and x.id in reordered for x in ast.walk(kws[fld]))]
+            if not used or "data" not in kws:
+                continue        # `X.struct._replace(s=...)` builds a struct, not a tensor
+            n_pos += 1
+            if "trans" in kws:
+                chk.ok(rule, (f, c), f"{A.short(c, 60)}: {'/'.join(used)} reordered through trans, trans reset", sample=n_pos <= 2)
+            else:
+                chk.bad(rule, (f, c), c, f"{f.short}(): `{'/'.join(used)}` of the result were already reordered according to the pending permutation "
+                        f"(`{A.short(reordered[[x.id for x in ast.walk(kws[used[0]]) if isinstance(x, ast.Name) and x.id in reordered][0]], 50)}`), "
+                        f"but the result inherits `trans` of the operand: the permutation is applied a second time and the legs of a lazily transposed "
+                        f"operand come out with the un-transposed signature / fusion records")
+    chk.extra["results_reordered_through_trans"] = n_pos
+    if n_pos < 1:
+        chk.note("I2 (converse): no result whose per-leg sequences are reordered through `trans` was recognised (one instance, diag, on the pinned tree)")
 
 
 # ------------------------------------------------------------------------- L3
